@@ -158,7 +158,7 @@ def _prune_cache(cfg, keep, maxn=400, max_age_s=6 * 3600):
 
 class Fn:
     __slots__ = ("raw", "path", "crate", "kind", "blocks", "locals", "argc", "span", "root", "debug",
-                 "_cfg", "captures", "name_of_local", "inlined_from", "n_own")
+                 "_cfg", "captures", "name_of_local", "inlined_from", "n_own", "fx")
 
     def __init__(self, raw, crate):
         self.raw = raw
@@ -173,6 +173,7 @@ class Fn:
         self.debug = raw.get("debug", [])
         self.captures = raw.get("captures", [])
         self._cfg = None
+        self.fx = None
         self.name_of_local = {}
         for d in self.debug:
             pl = d["pl"]
@@ -213,6 +214,7 @@ class Facts:
         for cname, c in crates.items():
             for raw in c["fns"]:
                 f = Fn(raw, cname)
+                f.fx = self
                 self.fns[f.path] = f
         self.adts = {}
         for c in crates.values():
